@@ -118,7 +118,7 @@ PROPS = {
         "level": "exploration",
         "quick": cfg(16, 30),
         "thorough": cfg(16, 400),
-        "rule": "(a) byte strings of 0-600 bytes split into 1-8 volumes incl. empty first/middle/last volumes; 10-500 operations read(n) (n = 0, 1, small, > total) and seek(Start|Current|End) with targets in [0,len] incl. exactly at and around volume boundaries, compared step by step with std::io::Cursor over the concatenation (bytes, positions; a 0-byte read while the model has bytes left is a violation) and drained at the end; (b) every 40th case: zip archives written by a raw zip writer (stored entries; names: nested dirs, unicode, blanks/brackets, duplicates, empty members, directories, '../x', 'a/../../x', absolute incl. the absolute path of a pre-existing file, aliases such as 'dot.dlt' + './dot.dlt' or 'a/b.dlt' + 'a/./b.dlt' that resolve to one file, members larger than the 64 KiB copy buffer; in 1/3 of the filtered extractions some requested members are already present in the target directory as an earlier extraction left them) extracted with extract_to_dir over a chain of random volumes and (every 80th case) with extract_archives from single or multi-volume files on disk with a pattern from a catalogue of (glob, Rust predicate) pairs; sandbox listing before/after. Non-trivial = chain history with >=1 read cut at a volume boundary and >=1 seek, archive checked without finding; distinct = (volumes, empties, size, crossings, empty first/last) resp. archive cases.",
+        "rule": "(a) byte strings of 0-600 bytes split into 1-8 volumes incl. empty first/middle/last volumes; 10-500 operations read(n) (n = 0, 1, small, > total) and seek(Start|Current|End) with targets in [0,len] incl. exactly at and around volume boundaries, compared step by step with std::io::Cursor over the concatenation (bytes, positions; a 0-byte read while the model has bytes left is a violation) and drained at the end; (b) every 40th case: zip archives written by a raw zip writer (stored entries; names: nested dirs, unicode, blanks/brackets, duplicates, empty members, directories, '../x', 'a/../../x', absolute incl. the absolute path of a pre-existing file, names that differ from the patterns only in letter case, aliases such as 'dot.dlt' + './dot.dlt' or 'a/b.dlt' + 'a/./b.dlt' that resolve to one file, members larger than the 64 KiB copy buffer; in 1/3 of the filtered extractions some requested members are already present in the target directory as an earlier extraction left them) extracted with extract_to_dir over a chain of random volumes and (every 80th case) with extract_archives from single or multi-volume files on disk with a pattern from a catalogue of (glob, Rust predicate) pairs; sandbox listing before/after. Non-trivial = chain history with >=1 read cut at a volume boundary and >=1 seek, archive checked without finding; distinct = (volumes, empties, size, crossings, empty first/last) resp. archive cases.",
         "floors": {"quick": {"evaluations": 500000, "distinct_nontrivial": 5000, "archives": 8000, "archives_with_hostile_names": 4000, "volume_boundary_crossings": 500000, "empty_volumes_used": 200000, "multi_volume_archives_on_disk": 800, "members_extracted_and_compared": 8000}, "thorough": {"evaluations": 10000000, "distinct_nontrivial": 10000}},
         "assumptions": ["only the default feature set (zip) is built; libarchive formats (7z, bz2) are outside the built configuration", "seek targets beyond the end or before 0 are excluded (std leaves the former implementation-defined and the chain clamps by design)", "duplicate member names accept either member's content"],
     },
@@ -134,7 +134,7 @@ PROPS = {
         "level": "exploration",
         "quick": cfg(16, 30),
         "thorough": cfg(16, 400),
-        "rule": "1/6 of the cases: a FileTransfer plugin with a random apid/ctid restriction and keepFLDA on/off processes data packages, announcements, end markers and near misses (other last argument, 4 arguments, utf8 tags, non verbose, other level, no extended header) of the configured and of other applications: exactly the data packages of the configured application are dropped when keepFLDA is off, everything else is forwarded unchanged and in order. 1/2 of the cases: a random non-empty subset of {NonVerbose, SomeIp, CAN, Muniic, Rewrite, NonVerbose with the harness' own FIBEX (harness/fibex/nv_rich.xml: one frame per signal type S_UINT8..S_RAW, a 17-value frame, text-only and empty frames, ECU EcuR)} in random order, created through factory::get_plugin from the repository's FIBEX/JSON/cfg files, processes 20-220 messages of mixed traffic (non-verbose ids of the FIBEX files and near misses with/without extended header and payloads of exactly / one less / one more than the frame's byte length, SOME/IP-like and CAN-like network traces incl. truncated frames, 13-argument Muniic messages, SYS/JOUR texts matching and not matching the rewrite regex, control messages, ordinary logs; both byte orders): conservation monitor with allowed-change mask {payload_text; extended header may appear when missing; timestamp only if Rewrite is active}. 1/3: AnonymizePlugin on lifecycle scenarios with ECU ids incl. ids that look like pseudonyms (E001..E003 in random first-seen order) and 1-900 APIDs/CTIDs: mapping functions and injectivity for ecu / (ecu,apid) / (ecu,apid,ctid), times untouched, and lifecycle detection on the re-exported anonymised trace vs the original (same partition of messages, same start/end/nr_msgs up to the ECU renaming). Non-trivial = >=1 plugin changed a text resp. >=2 ECUs and >=2 lifecycles; distinct = (plugin order, changed-text bucket) resp. (ecus, apids, lifecycles, mode, position of E001).",
+        "rule": "1/6 of the cases: a FileTransfer plugin with a random apid/ctid restriction and keepFLDA on/off processes data packages, announcements, end markers and near misses (other last argument, 4 arguments, utf8 tags, non verbose, other level, no extended header) of the configured and of other applications: exactly the data packages of the configured application are dropped when keepFLDA is off, everything else is forwarded unchanged and in order. 1/2 of the cases: a random non-empty subset of {NonVerbose, SomeIp, CAN, Muniic, Rewrite, NonVerbose with the harness' own FIBEX (harness/fibex/nv_rich.xml: one frame per signal type S_UINT8..S_RAW, a 17-value frame, text-only and empty frames, ECU EcuR)} in random order, created through factory::get_plugin from the repository's FIBEX/JSON/cfg files, processes 20-220 messages of mixed traffic (non-verbose ids of the FIBEX files and near misses with/without extended header and payloads of exactly / one less / one more than the frame's byte length, SOME/IP-like and CAN-like network traces incl. truncated frames, 13-argument Muniic messages, complete well-formed segmented SOME/IP transfers (NWST, all NWCH in order, NWEN), SYS/JOUR texts matching and not matching the rewrite regex, control messages, ordinary logs; both byte orders): conservation monitor with allowed-change mask {payload_text; extended header may appear when missing; timestamp only if Rewrite is active}. 1/3: AnonymizePlugin on lifecycle scenarios with ECU ids incl. ids that look like pseudonyms (E001..E003 in random first-seen order) and 1-900 APIDs/CTIDs: mapping functions and injectivity for ecu / (ecu,apid) / (ecu,apid,ctid), times untouched, and lifecycle detection on the re-exported anonymised trace vs the original (same partition of messages, same start/end/nr_msgs up to the ECU renaming). Non-trivial = >=1 plugin changed a text resp. >=2 ECUs and >=2 lifecycles; distinct = (plugin order, changed-text bucket) resp. (ecus, apids, lifecycles, mode, position of E001).",
         "floors": {"quick": {"evaluations": 100000, "distinct_nontrivial": 1000, "messages_with_changed_text": 1000000, "text_changed_traffic_class_0": 50000, "text_changed_traffic_class_1": 50000, "text_changed_traffic_class_2": 50000, "text_changed_traffic_class_3": 10000, "text_changed_traffic_class_4": 50000, "anon_lifecycle_tables_compared": 20000, "file_transfer_drop_cases": 10000}, "thorough": {"evaluations": 1000000, "distinct_nontrivial": 3000}},
         "assumptions": ["plugin configuration = the files shipped in /repo/tests (fibex1.xml, non_verbose*.xml, rewrite.cfg, muniic/min.json) plus the well-formed harness FIBEX nv_rich.xml", "pseudonym capacity (3 digits) is respected by the generator", "FileTransfer/Export plugins may drop messages by design and are covered by C17 / C12"],
     },
@@ -160,8 +160,8 @@ PROPS = {
         "needs_bin": True,
         "quick": cfg(16, 75, timeout_factor=6),
         "thorough": cfg(16, 900, timeout_factor=3),
-        "rule": "first third of the budget, library level: StreamContext built from JSON (stream/query, 0-3 enabled filters of every kind, windows) driven exactly as the server loop drives process_stream_new_msgs, with arrival batches {0, 1, chunk-1, chunk, chunk+1, random} and chunk limits {1,2,7,63,64,65,1000,3M}; after EVERY step filtered_msgs must equal the specification's matches below all_msgs_last_processed_len (queries truncated to window end). Rest of the budget, binary level: sessions against `adlt remote` (parser pacing / small channels through hook H4) on generated logs of 37/700/20000 verbose messages: stream and query windows (empty, beyond the end, whole, inside; on the 20000-message log half of the queries ask for everything), streams created before and after parsing finished, window changes (new id), search paging with page sizes 1-50 (or 1/2..1/10 of the stream) from arbitrary start positions until next_search_idx is absent, index lookups and (on a 500-message single-lifecycle log) time lookups; 1/3 of the sessions open the file time sorted (the ECUs of the logs have different uptimes, i.e. lifecycles with different start times, while the sorted order equals the file order); delivered DltMsgs are compared field by field with the file (index, reception time, timestamp, ecu/apid/ctid, mcnt, htyp, type, noar, text) and must not precede the ok: reply announcing their stream id; 1/4 of the streams run in text mode (\"binary\":false): every `stream:<id> msg(<pos>):<header>` line must carry the announced id, consecutive stream positions from the window start and the header text of the expected file message. Non-trivial = library history with active filters and more messages than the chunk limit / complete binary session; distinct = (kind, chunk, filters, size, window class) resp. session shapes.",
-        "floors": {"quick": {"evaluations": 20000, "distinct_nontrivial": 300, "bin_sessions": 50, "windows_checked": 100, "window_changes_checked": 60, "searches_checked": 40, "lookups_checked": 50, "messages_compared_field_by_field": 2000, "sessions_on_time_sorted_files": 10}, "thorough": {"evaluations": 200000, "distinct_nontrivial": 1000, "bin_sessions": 2000}},
+        "rule": "first third of the budget, library level: StreamContext built from JSON (stream/query, 0-3 enabled filters of every kind, windows) driven exactly as the server loop drives process_stream_new_msgs, with arrival batches {0, 1, chunk-1, chunk, chunk+1, random} and chunk limits {1,2,7,63,64,65,1000,3M}; after EVERY step filtered_msgs must equal the specification's matches below all_msgs_last_processed_len (queries truncated to window end). Rest of the budget, binary level: sessions against `adlt remote` (parser pacing / small channels through hook H4) on generated logs of 37/700/20000 verbose messages: stream and query windows (empty, beyond the end, whole, inside; on the 20000-message log half of the queries ask for everything), streams created before and after parsing finished, window changes (new id), search paging with page sizes 1-50 (or 1/2..1/10 of the stream) from arbitrary start positions until next_search_idx is absent, index lookups and (on a 500-message single-lifecycle log) time lookups; 1/3 of the sessions open the file time sorted (the ECUs of the logs have different uptimes, i.e. lifecycles with different start times, while the sorted order equals the file order); delivered DltMsgs are compared field by field with the file (index, reception time, timestamp, ecu/apid/ctid, mcnt, htyp, type, noar, text) and must not precede the ok: reply announcing their stream id; 1/6 of the sessions are one pass sessions (open with collect=one_pass_streams, 1-3 one_pass streams with windows and filters created while paused, resume; the server drains the messages after every round and every stream must still receive exactly its window); 1/4 of the streams run in text mode (\"binary\":false): every `stream:<id> msg(<pos>):<header>` line must carry the announced id, consecutive stream positions from the window start and the header text of the expected file message. Non-trivial = library history with active filters and more messages than the chunk limit / complete binary session; distinct = (kind, chunk, filters, size, window class) resp. session shapes.",
+        "floors": {"quick": {"evaluations": 20000, "distinct_nontrivial": 300, "bin_sessions": 50, "windows_checked": 100, "window_changes_checked": 60, "searches_checked": 40, "lookups_checked": 50, "messages_compared_field_by_field": 2000, "sessions_on_time_sorted_files": 10, "one_pass_streams_checked": 10}, "thorough": {"evaluations": 200000, "distinct_nontrivial": 1000, "bin_sessions": 2000}},
         "assumptions": ["queries are issued after the file was parsed (a query issued while arrival stalls is ended by the server on its first idle poll: documented design, not part of the statement)", "time lookups are checked on the monotonic log only (one ECU, one lifecycle, calculated time strictly increasing), index lookups on all logs", "a window wait that times out while the server is still parsing (slow pacing) is inconclusive"],
     },
     "C14": {
